@@ -25,7 +25,10 @@ import (
 	"hash/crc32"
 	"io"
 	"net"
+	"os"
+	"path/filepath"
 	"reflect"
+	"regexp"
 	"sort"
 	"strconv"
 	"strings"
@@ -61,6 +64,30 @@ const (
 )
 
 const compactMarkerHex = "5f5f636f6d706163745f6d61726b65725f5f" // "__compact_marker__"
+
+// serverMsgSize: the value cmd/kevo/server.go passes to grpc.MaxRecvMsgSize / MaxSendMsgSize (0 = it sets neither: gRPC's 4 MB default)
+var reMsgConst = regexp.MustCompile(`maxMessageSize\s*=\s*(\d+)\s*\*\s*1024\s*\*\s*1024`)
+
+func serverMsgSize() int {
+	repo := os.Getenv("VERIF_REPO")
+	if repo == "" {
+		repo = "/repo"
+	}
+	b, err := os.ReadFile(filepath.Join(repo, "cmd", "kevo", "server.go"))
+	if err != nil {
+		return 0
+	}
+	src := string(b)
+	if !strings.Contains(src, "grpc.MaxRecvMsgSize(maxMessageSize)") || !strings.Contains(src, "grpc.MaxSendMsgSize(maxMessageSize)") {
+		return 0
+	}
+	m := reMsgConst.FindStringSubmatch(src)
+	if m == nil {
+		return 0
+	}
+	n, _ := strconv.Atoi(m[1])
+	return n * 1024 * 1024
+}
 
 // ---------- byte tokens ----------
 
@@ -279,10 +306,12 @@ func (x *svcEnv) open(ws []string) string {
 	lis := bufconn.Listen(1 << 20)
 	var opts []grpc.ServerOption
 	var dopts []grpc.DialOption
-	if kv["big"] == "1" { // cmd/kevo/server.go keeps grpc's 4 MB default; raised here to reach the handler's own 10 MB limit
-		opts = append(opts, grpc.MaxRecvMsgSize(32<<20), grpc.MaxSendMsgSize(32<<20))
-		dopts = append(dopts, grpc.WithDefaultCallOptions(grpc.MaxCallRecvMsgSize(32<<20), grpc.MaxCallSendMsgSize(32<<20)))
+	// the server's message-size options are those of cmd/kevo/server.go (read from the source being checked: package main cannot
+	// be imported); the test client accepts anything
+	if n := serverMsgSize(); n > 0 {
+		opts = append(opts, grpc.MaxRecvMsgSize(n), grpc.MaxSendMsgSize(n))
 	}
+	dopts = append(dopts, grpc.WithDefaultCallOptions(grpc.MaxCallRecvMsgSize(64<<20), grpc.MaxCallSendMsgSize(64<<20)))
 	x.srv = grpc.NewServer(opts...)
 	pb.RegisterKevoServiceServer(x.srv, svc)
 	go x.srv.Serve(lis)
@@ -1381,7 +1410,7 @@ func (s *svcGen) replicaStep() {
 	}
 }
 
-func (s *svcGen) limitsCase(big bool) {
+func (s *svcGen) limitsCase(big, mid bool) {
 	g := s.g
 	kk := func(n int) string {
 		if n == 0 {
@@ -1419,6 +1448,13 @@ func (s *svcGen) limitsCase(big bool) {
 	}
 	s.emit("rpc", "Get", hx([]byte("b1")))
 	s.emit("rpc", "BatchWrite", "0")
+	if mid {
+		// a value WITHIN the documented limit but above gRPC's default message size (4 MB): served like any other
+		n := g.pick(4*1024*1024+1, 5*1024*1024, 6*1024*1024+17)
+		s.emit("rpc", "Put", hx([]byte("mid")), fmt.Sprintf("*%d:%02x", n, 0x61+g.intn(3)))
+		s.emit("rpc", "Get", hx([]byte("mid")))
+		s.emit("rpc", "Delete", hx([]byte("mid")))
+	}
 	if big {
 		for _, n := range []int{svcMaxValue, svcMaxValue + 1} {
 			s.emit("rpc", "Put", hx([]byte("big")), fmt.Sprintf("*%d:%02x", n, 0x41+g.intn(3)))
@@ -1542,7 +1578,7 @@ func genServiceCase(g *gen, c int, tier string, w *bufio.Writer, flavour int) {
 		} else {
 			s.emit("open", "mode=none", "ro=0", "mem=1048576")
 		}
-		s.limitsCase(big)
+		s.limitsCase(big, tier == "thorough" || g.chance(1, 6))
 	case flavour < 98: // KNOWN FINDING (marked): engine errors reported as "not found"
 		fmt.Fprintf(w, "# case %d kf=get-error-as-notfound\n", c)
 		s.emit("open", "mode=none", "ro=0", fmt.Sprintf("mem=%d", mem))
